@@ -8,17 +8,20 @@ META = dict(
     engine="E2",
     level="fault_enumeration",
     text="Design level: Keypool.tla models next_index / range_end of every active descriptor in memory, in the committed database file and in its "
-         "durable (fsynced) content, GetNewDestination as the code's two steps (TopUp transaction, then increment + WriteDescriptor), keypoolrefill, "
-         "clean reload, process kill and power loss at any point; TLC checks exhaustively that no (descriptor, index) pair is handed out twice and finds "
-         "the repeat in three deliberately broken variants (no write, write before the increment, commit not fsynced before the return). Code level: "
-         "behaviours chosen by TLC (new receiving / change addresses of all four output types, refills, clean reloads, kills and power failures) run on a "
+         "durable (fsynced) content, GetNewDestination as the code's two steps (TopUp transaction, then increment + WriteDescriptor), keypoolrefill, the "
+         "wallet's lock state (unencrypted / unlocked / locked) with hardened-range descriptors that cannot refill while locked (requests then FAIL and must "
+         "change nothing), requests through ReserveDestination (kept, or reserved and returned), clean reload, process kill and power loss at any point; "
+         "TLC checks exhaustively that no (descriptor, index) pair is handed out twice and that a failed request changes nothing, and finds the repeat in "
+         "four deliberately broken variants (no write, write before the increment, commit not fsynced before the return, a failed reservation giving back "
+         "the last index). Code level: behaviours chosen by TLC and two fixed ones (new receiving / change addresses of all four output types, returned "
+         "reservations, refills, lock / unlock, a hardened change descriptor that runs dry in a locked wallet, clean reloads, kills and power failures) run on a "
          "real SQLite descriptor wallet under strace; at every return (and at sampled write/fsync boundaries inside later calls) the kill image and three "
          "power-loss images of the wallet directory are cut from the syscall stream, a wallet is loaded from each and asked for one fresh address of "
          "every active descriptor; TLC evaluates the specification's invariant on every observed list of addresses (all sessions of a wallet plus the "
          "fresh ones).",
     note="Power-loss model: per file the content at its last fsync survives (no torn or reordered writes inside a file); mixed images keep the "
          "unsynced writes of either the journal or the database. Addresses reserved for a transaction that is then not created are given back by "
-         "design (ReturnDestination) and are not 'returned addresses'. The index the model predicts for each call is compared as well; a difference "
+         "design (ReturnDestination) and are not 'returned addresses'; a locked wallet may refuse a request on a hardened descriptor. The index the model predicts for each call is compared as well; a difference "
          "there is reported as a deviation in the evidence, not as a violation (the property only forbids repeats).",
     technique="TLA+ spec of the keypool bookkeeping model-checked with TLC; TLC-simulated behaviours replayed on a real SQLite wallet under strace, crash images reloaded and judged by TLC",
 )
@@ -123,7 +126,9 @@ def run_chain(ctx, binary, bi, beh, quick, stride):
                 raise vflib.InfraError("file model does not reproduce the wallet directory (%s differ)" % sess.model_bad)
             if nprel:
                 if any(not sess.out["steps"][j]["r"].get("ok") for j in range(nprel)):
-                    raise vflib.InfraError("wallet set-up failed: %s" % [sess.out["steps"][j]["r"] for j in range(nprel)])
+                    # the chain goes on with whatever wallet there is; run() turns this into an infrastructure error unless the observations show a violation
+                    stats["setup_failures"] += 1
+                    devs.append(dict(chain=bi, step=-1, a=["setup"], why="wallet set-up failed: %s" % [sess.out["steps"][j]["r"] for j in range(nprel)]))
                 prelude_end = sess.step_end[nprel - 1]
                 mut = [p for p in mut if p > prelude_end]
             stats["sessions"] += 1
@@ -309,6 +314,7 @@ def run(ctx):
     ctx.extra["workload"] = dict(stats)
     ctx.extra["model_actions_replayed"] = dict(per_action)
     ctx.extra["index_deviations_from_model"] = len(devs)
+    ctx.extra["requests_refused_although_the_model_answers"] = sum(l.get("failed", 0) for l in lines)
     if devs:
         ctx.extra["index_deviation_samples"] = devs[:5]
         ctx.log("%d deviations of the observed indices from the model, e.g. %s" % (len(devs), devs[0]))
@@ -329,6 +335,9 @@ def run(ctx):
                               " ".join(str(x) for x in l["act"]), inv, l["where"], l["act"][1], l["load"], rep[:3], [p for p in l["pairs"] if l["pairs"].count(p) > 1][:4]),
                           dict(observation=l, invariant=inv))
     ctx.extra["observations_breaking_an_invariant"] = {"%s | %s | %s | %s" % k: v for k, v in reported.items()}
+    if not ctx.violations and (stats["setup_failures"] or not stats["failed_requests"] or not stats["returned_reservations"]):
+        raise vflib.InfraError("the hardened / reservation scenarios did not run as intended (set-up failures %d, failed requests %d, returned reservations %d)" % (
+            stats["setup_failures"], stats["failed_requests"], stats["returned_reservations"]))
     ctx.assumptions += ["power loss: per-file durability = content at last fsync; no torn writes or intra-file reordering; directory entries are durable once created",
                         "crash points: every return of an address request, refill or reload, and %s" % ("every %d-th write/fsync boundary inside the calls" % stride if stride > 1 else "every write/fsync boundary inside the calls"),
                         "keypool size %d so that every request extends the range and a locked hardened descriptor runs dry after %d requests" % (KEYPOOL, KEYPOOL)]
